@@ -2,6 +2,7 @@ package main
 
 import (
 	"fmt"
+	"go/token"
 	"go/types"
 	"sort"
 	"strings"
@@ -16,13 +17,14 @@ func init() {
 		Decided: "C09.1 the target handed to the table walk is args.target for find_node and get, args.info_hash for get_peers (traced through the helper chain per method); " +
 			"C09.2 nodes/nodes6 are assigned only from the good-node selection whose filter implies IsGood, IsGood implies not-bad ∧ has-responded, not-bad implies ≠ own ID, and lastGotResponse is set only on a matched response; " +
 			"C09.3 at most K=8 entries (constant at the call, truncation in the table walk); C09.4 nodes only under wants-IPv4 and only IPv4 contacts, nodes6 only under wants-IPv6 and only non-IPv4 contacts.",
-		NotDecided: "nearest-bucket-first order and the 'fewer than K only when exhausted' clause (loop shape), goodness over time.",
+		NotDecided: "that walking towards bucket 0 visits contacts in non-increasing closeness (a metric fact, C18), ordering inside one bucket, goodness over time.",
 		Rules: []*Rule{
 			{ID: "C09.1", Doc: "target field per method", Floor: 3, Run: c09r1},
 			{ID: "C09.2", Doc: "only good contacts", Floor: 6, Run: c09r2},
 			{ID: "C09.3", Doc: "at most K", Floor: 2, Run: c09r3},
 			{ID: "C09.4", Doc: "family gating", Floor: 4, Run: c09r4},
 			{ID: "C09.5", Doc: "'has answered us' is recorded only for matched responses", Floor: 5, Run: c06r1},
+			{ID: "C09.7", Doc: "the table walk starts at the target's bucket, moves one bucket nearer the root each round, and stops only when K are collected or the buckets are exhausted", Floor: 4, Run: c09r7},
 			{ID: "C09.6", Doc: "family selection: want list, else the requester's own family by To4", Floor: 4, Run: c09r6},
 		},
 	})
@@ -472,4 +474,210 @@ func c09r6(w *World, rr *RuleRun) {
 	if nT == 0 {
 		rr.Oblige(shortFuncName(wc), "wantsContain can be true", w.P.Pos(wc.Pos()), false, "")
 	}
+}
+
+// c09r7: "nearest buckets first" and "fewer than K only when the table is exhausted" as the shape
+// of the bucket walk in table.closestNodes.
+func c09r7(w *World, rr *RuleRun) {
+	a := w.tableAnchors()
+	tcn := w.P.Func("(*table).closestNodes")
+	kT := w.ParamTerm(tcn, "k")
+	targetT := w.ParamTerm(tcn, "target")
+	var idx *ssa.Phi
+	var idxSite ssa.Instruction
+	eachInstr([]*ssa.Function{tcn}, func(_ *ssa.Function, ins ssa.Instruction) {
+		ia, ok := ins.(*ssa.IndexAddr)
+		if !ok || fieldOfAddr(ia.X) != a.buckets {
+			return
+		}
+		if ph, ok := ia.Index.(*ssa.Phi); ok && idx == nil {
+			idx, idxSite = ph, ins
+		}
+	})
+	if idx == nil {
+		rr.Broken("table.closestNodes does not index buckets with a loop variable")
+		return
+	}
+	header := idx.Block()
+	// loop body: blocks dominated by the header that can reach it
+	inLoop := map[*ssa.BasicBlock]bool{}
+	for _, b := range tcn.Blocks {
+		if header.Dominates(b) && blockReaches(b, header) {
+			inLoop[b] = true
+		}
+	}
+	inLoop[header] = true
+	var initV, stepV ssa.Value
+	for i, e := range idx.Edges {
+		if inLoop[header.Preds[i]] {
+			stepV = e
+		} else {
+			initV = e
+		}
+	}
+	// step: index - 1
+	okStep := false
+	if bo, ok := stepV.(*ssa.BinOp); ok && bo.Op == token.SUB && bo.X == idx {
+		if c, ok := ConstInt(bo.Y); ok && c == 1 {
+			okStep = true
+		}
+	}
+	stepS := "-"
+	if stepV != nil {
+		stepS = w.TS.Of(stepV).String()
+	}
+	rr.At(w, idxSite, "each round moves to the next bucket nearer the root (index − 1)", okStep, "next index "+stepS)
+	// start: bucketIndex(target), or the last bucket when the target is the root itself
+	al, _ := arrayLen(a.buckets.Type())
+	isBI := func(x *Term) bool {
+		return isCall(x, a.bucketIndex) && len(x.Args) == 2 && termEq(x.Args[1], targetT)
+	}
+	eqRoot := func(x *Term) bool {
+		return x.Op == OpBin && x.Name == "==" && (isFieldTerm(x.Args[0], a.rootID) || isFieldTerm(x.Args[1], a.rootID))
+	}
+	initS := "-"
+	// edgeUnderRoot: the CFG edge pred→succ is taken only when target == rootID
+	edgeUnderRoot := func(pred, succ *ssa.BasicBlock) bool {
+		if len(pred.Instrs) == 0 {
+			return false
+		}
+		last := pred.Instrs[len(pred.Instrs)-1]
+		if iff, ok := last.(*ssa.If); ok {
+			sign := pred.Succs[0] == succ
+			for _, at := range w.FE.decompose(w.TS.Of(iff.Cond), sign) {
+				if at.sign && at.term != nil && eqRoot(at.term) {
+					return true
+				}
+			}
+		}
+		st := w.FE.StateBefore(last)
+		if len(st) == 0 {
+			return false
+		}
+		for _, alt := range st {
+			if !alt.Has("b", true, eqRoot) {
+				return false
+			}
+		}
+		return true
+	}
+	var startOK func(v ssa.Value, pred, succ *ssa.BasicBlock, depth int) bool
+	startOK = func(v ssa.Value, pred, succ *ssa.BasicBlock, depth int) bool {
+		t := w.TS.Of(v)
+		if isBI(t) {
+			return true
+		}
+		if depth > 3 {
+			return false
+		}
+		switch x := v.(type) {
+		case *ssa.Phi:
+			for i, e := range x.Edges {
+				if !startOK(e, x.Block().Preds[i], x.Block(), depth+1) {
+					return false
+				}
+			}
+			return len(x.Edges) > 0
+		case *ssa.Call:
+			good := false
+			for _, cal := range w.CG.SiteOut[x] {
+				fa := w.FE.analysisFor(cal.Callee)
+				good = len(fa.exits) > 0
+				for _, ex := range fa.exits {
+					for _, alt := range ex.st {
+						rv := w.FE.Resolve(alt, ex.ret.Results[0])
+						if isBI(rv) || (rv.IsConst(fmt.Sprint(al-1)) && alt.Has("b", true, eqRoot)) {
+							continue
+						}
+						good = false
+						initS = "start " + rv.String() + " under {" + trunc(strings.Join(alt.Facts(), " ∧ "), 160) + "}"
+					}
+				}
+			}
+			return good
+		}
+		if t.IsConst(fmt.Sprint(al-1)) && pred != nil && edgeUnderRoot(pred, succ) {
+			return true
+		}
+		initS = "start " + t.String()
+		return false
+	}
+	okInit := true
+	nInit := 0
+	for i, e := range idx.Edges {
+		if inLoop[header.Preds[i]] {
+			continue
+		}
+		nInit++
+		if !startOK(e, header.Preds[i], header, 0) {
+			okInit = false
+		}
+	}
+	okInit = okInit && nInit > 0
+	_ = initV
+	rr.At(w, idxSite, "the walk starts at the target's own bucket (the last bucket when the target is the root ID)", okInit, initS)
+	// exits: only with the buckets exhausted (index < 0) or K collected
+	idxT := w.TS.Of(idx)
+	nExit := 0
+	seenExit := map[*ssa.BasicBlock]bool{}
+	for _, b := range tcn.Blocks {
+		if !inLoop[b] {
+			continue
+		}
+		for _, sc := range b.Succs {
+			if inLoop[sc] || len(sc.Instrs) == 0 || seenExit[sc] {
+				continue
+			}
+			seenExit[sc] = true
+			nExit++
+			w.Require(rr, sc.Instrs[0], "the walk stops only when the buckets are exhausted or K contacts are collected", func(alt *Alt) (bool, string) {
+				if alt.Has("b", true, func(x *Term) bool {
+					return x.Op == OpBin && x.Name == "<" && termEq(x.Args[0], idxT) && x.Args[1].IsConst("0")
+				}) {
+					return true, "index < 0"
+				}
+				if alt.Has("b", false, func(x *Term) bool {
+					return x.Op == OpBin && x.Name == "<" && x.Args[0].Op == OpLen && termEq(x.Args[1], kT)
+				}) {
+					return true, "¬(len(ret) < k)"
+				}
+				return false, "the loop can be left with buckets unvisited and fewer than k contacts"
+			})
+		}
+	}
+	if nExit == 0 {
+		rr.Oblige(shortFuncName(tcn), "the walk stops only when the buckets are exhausted or K contacts are collected", w.P.Pos(tcn.Pos()), false, "no loop exit found")
+	}
+	// every entry of the visited bucket is offered to the filter: a range over that bucket's node set
+	nodesF := a.nodes
+	okRange := false
+	eachInstr([]*ssa.Function{tcn}, func(_ *ssa.Function, ins ssa.Instruction) {
+		if r, ok := ins.(*ssa.Range); ok && inLoop[r.Block()] {
+			t := w.TS.Of(r.X)
+			if isFieldTerm(t, nodesF) && t.Contains(idxT) {
+				okRange = true
+			}
+		}
+	})
+	rr.At(w, idxSite, "every entry of the visited bucket is considered (range over its node set)", okRange, "")
+}
+
+func blockReaches(from, to *ssa.BasicBlock) bool {
+	seen := map[*ssa.BasicBlock]bool{}
+	var dfs func(b *ssa.BasicBlock) bool
+	dfs = func(b *ssa.BasicBlock) bool {
+		for _, s := range b.Succs {
+			if s == to {
+				return true
+			}
+			if !seen[s] {
+				seen[s] = true
+				if dfs(s) {
+					return true
+				}
+			}
+		}
+		return false
+	}
+	return dfs(from)
 }
